@@ -354,6 +354,13 @@ theorem default_graph_node (sys : Sys) : mkGraphNode none none sys = .ok (⟨1, 
   have f0 : Rat.floor (0 : Rat) = 0 := by decide +kernel
   simp only [mkGraphNode, hv, he, Option.getD, QIn.toUVal, f0]
 
+/-- `copy()` of a system and of its parts duplicates the WHOLE object (deep copy): the model's value semantics — a write
+on one system, network or space never shows in another — is what the code implements for copies -/
+theorem copies_are_deep :
+    systemCopyBody = ["returncpy.deepcopy(self)"] ∧ gridCopyBody = ["returncpy.deepcopy(self)"] ∧
+    graphCopyBody = ["returncpy.deepcopy(self)"] ∧ networkCopyBody = ["returncpy.deepcopy(self)"] ∧
+    speciesCopyBody = ["returncpy.deepcopy(self)"] := by decide +kernel
+
 /-! ## non-vacuity -/
 
 example : stateIndex 4 1 2 = 6 ∧ stateIndex 4 0 3 = 3 := by decide
